@@ -290,6 +290,15 @@ mod imp {
             out.revisions += 1;
             let pre = log.pre.as_ref().unwrap();
             let post = log.post.as_ref().unwrap();
+            if std::env::var("VERIF_TRACE").is_ok() {
+                eprintln!("--- round {ri}");
+                for e in &log.events {
+                    eprintln!("    {e:?}");
+                }
+                for (ti, r) in log.results.iter().enumerate() {
+                    eprintln!("  reader {ti}: {r:?}");
+                }
+            }
             let has_writer = round.writer.is_some();
             if let Some(pk) = &log.writer_panic {
                 if !matches!(pk, PK::Injected(..)) {
@@ -308,8 +317,12 @@ mod imp {
                             let deep = matches!(req, Req::Query { deep: true, .. });
                             let (e, _) = expected(prog, pre, *n as usize, *arg, deep);
                             out.bump("reader_values_compared");
+                            let mixed = prog.is_cyclic() && crate::refcyc::CycRef::solve(prog, pre).panic_possible(*n as usize);
                             match e {
                                 Some(e) if &e == g => {}
+                                // recorded finding (C14): a function without cycle recovery on a cycle with
+                                // fixpoint functions, entered from several threads, returns a provisional value
+                                Some(e) if mixed => out.viol("mixed_cycle_cross_thread_value", ri, format!("round {ri} reader {ti} node {n}: expected a cycle panic or {e:?}, got {g:?}")),
                                 Some(e) => out.viol("value_mismatch", ri, format!("round {ri} reader {ti} node {n}: expected {e:?} (revision the reader ran in) got {g:?}")),
                                 None => out.viol("missing_panic", ri, format!("round {ri} reader {ti} node {n}: reference aborts, got {g:?}")),
                             }
@@ -345,7 +358,10 @@ mod imp {
                                 PK::Msg(m) if e.is_none() && (m.contains("specify")) => true,
                                 _ => false,
                             };
-                            if !ok {
+                            let internal = matches!(pk, PK::Msg(m) if m.contains("cycle participant with non-empty cycle heads") || m.contains("Can't merge cycle heads") || m.contains("provisional_status.is_provisional()"));
+                            if !ok && internal && cyc_panic_ok {
+                                out.viol("mixed_cycle_cross_thread_internal_panic", ri, format!("round {ri} reader {ti} node {n}: {pk:?}"));
+                            } else if !ok {
                                 out.viol("unexpected_panic", ri, format!("round {ri} reader {ti} node {n}: {pk:?}"));
                             }
                         }
@@ -434,11 +450,15 @@ mod imp {
                 match o {
                     Outc::Val(g) => match e {
                         Some(e) if &e == g => out.bump("post_round_values_compared"),
+                        Some(e) if cyc_ok && conc.rounds[ri].readers.len() > 1 => out.viol("mixed_cycle_cross_thread_value", ri, format!("after round {ri} node {n}: expected {e:?} got {g:?} (memo left by the concurrent round)")),
                         Some(e) => out.viol("value_mismatch_after_round", ri, format!("after round {ri} node {n}: expected {e:?} got {g:?}")),
                         None => {}
                     },
                     Outc::Panic(PK::Msg(m)) if cyc_ok && m.contains("dependency graph cycle") => {}
                     Outc::Panic(PK::Cancelled(c)) if c == "PropagatedPanic" && (cyc_ok || (faulty && prog.is_cyclic())) => out.bump("poisoned_head_observed"),
+                    Outc::Panic(PK::Msg(m)) if cyc_ok && (m.contains("cycle participant with non-empty cycle heads") || m.contains("Can't merge cycle heads") || m.contains("provisional_status.is_provisional()")) => {
+                        out.viol("mixed_cycle_cross_thread_internal_panic", ri, format!("after round {ri} node {n}: {m}"))
+                    }
                     Outc::Panic(pk) => out.viol("unexpected_panic_after_round", ri, format!("after round {ri} node {n}: {pk:?}")),
                     _ => {}
                 }
